@@ -117,7 +117,15 @@ impl<'t> FieldTypeAndInstantiationsBuilder<'t, '_> {
 					format!(#pattern, namespace.get())
 				}
 			}
-			Some(namespace) => {
+			Some(namespace) => 'new_name: {
+				if let FieldKind::StructField { field_name, .. } = &field_kind {
+					// Same as without a namespace attribute: derive the name from the record's
+					// runtime `type_name`, which for a generic record carries the hash of the
+					// instantiation. A name computed at expansion time would be shared by
+					// every instantiation and defined once per instantiation in the schema.
+					let pattern = format!(r#"{{}}.{}"#, field_name.unraw());
+					break 'new_name quote! { format!(#pattern, type_name) };
+				}
 				let namespace_prefix = if namespace.is_empty() {
 					"".to_owned()
 				} else {
